@@ -49,6 +49,25 @@ CHECKS = {
          "for the boot loader); a twin run has those subsystems off/idle; the turn must return and its canonical records must equal the twin's.",
     note="Sites are those guarded by try/except in run_turn, apply_changes, apply_quality and the sidecar writer; twins are defined per site (DESIGN 4/C20).",
     technique="deterministic simulation: buggify fault sites + garbage-state injection, differential vs idle twin"),
+ "C15": dict(level="exploration", ref="4/C15",
+    text="Every container is driven by seeded operation histories beside a reference model written from its docstring, with the TTL clock "
+         "injected and advanced/jumped by the history; the lock wrappers are driven by 2-4 simulated threads with line-level pre-emption "
+         "inside the container sources and the recorded invoke/return history is checked for linearizability against the model; "
+         "merge_caches_deterministic is checked over permuted worker lists.",
+    note="Histories are short (<=30 ops, <=12 threaded ops) over 4 keys; linearizability by exhaustive search.",
+    technique="deterministic simulation: model-based histories with simulated clock + seeded thread scheduler with line pre-emption + linearizability check"),
+ "C16": dict(level="exploration", ref="4/C16",
+    text="Concurrent writers append through the real append_jsonl on an interposed raw append layer whose every write is a scheduler-"
+         "controlled event; LogStager is driven with the documented back-pressure protocol under several byte limits; rotation histories "
+         "are interrupted by a kill at every file-system step and continued; normalisation and compaction are checked on generated records.",
+    note="Atomicity of one O_APPEND write is assumed (POSIX); processes are modelled as tasks with own descriptors.",
+    technique="deterministic simulation: seeded interleaving of raw append events, back-pressure schedules, kill points in rotation"),
+ "C17": dict(level="exploration", ref="4/C17",
+    text="Scheduler-core histories with a simulated clock (advances, tier crossings, backward jumps), both policies and optional queue "
+         "rotation are checked for determinism, eligibility, reset and the 2(n-1)m+1 selection bound; orchestrator turns run with scripted "
+         "per-stage simulated costs and drawn budgets, checking clamps, yield placement and reason precedence.",
+    note="Liveness is a step bound over finite histories; T1 caps on single-graph worlds.",
+    technique="deterministic simulation: simulated scheduler/slice clocks with scripted stage costs, invariant + bounded-liveness checks over seeded histories"),
 }
 
 NA = {
